@@ -3,9 +3,11 @@ from props import _auto as _auto_mods
 LEAN_MODULES = _auto_mods.lean_modules("C18")
 VARIANTS = ["default"]
 RULE = ("all 2^16 byte pairs (thorough; quick: a 4096-pair stratified subset incl. every a==b and |a-b|<=1), all pairs "
-        "over the 64-bit boundary set for 8 predicates, random 64-bit pairs, byte/word arrays of length 0..=40 equal or "
-        "differing in exactly one position (every position), slices with unequal lengths, every (choice,array) "
-        "combination for swap/set, MacResult/Tag equality; a case is non-trivial when the operands are not both zero; "
+        "over the 64-bit boundary set for 8 predicates, u64 zero/nonzero on every single-bit value, its complement and random values, "
+        "random 64-bit pairs, byte/word arrays of length 0..=40 (words 0..=12) equal (eq, ne, lt, ge and the slice forms) or "
+        "differing in exactly one position (every position; zero/nonzero of arrays and slices with a single non-zero byte at every "
+        "position), slices with unequal lengths in both orders for eq and ne (refused), every (choice,array) "
+        "combination for swap/set, CtOption over both choices x boundary and random payloads, MacResult/Tag equality; a case is non-trivial when the operands are not both zero; "
         "distinct = distinct case lines")
 TRUSTED = ["hand-written model Impl/ConstantTime.lean of src/constant_time.rs (tied by the correspondence run)",
            "i16/i8 intermediates of the byte-array borrow chain are modelled in Int (range theorem borrowStep_i16_range)"]
@@ -24,6 +26,15 @@ def gen(tier, rng):
         for b in B64:
             for op in ("eq", "ne", "lt", "gt", "le", "ge"):
                 yield (f"ct.u64.{op} {a} {b}", "u64.boundary")
+    # zero / nonzero on every single-bit value (a fold that drops a bit or a half shows only there) and on random values
+    for bit in range(64):
+        for v in (1 << bit, (2**64 - 1) ^ (1 << bit)):
+            yield (f"ct.u64.zero {v}", "u64.unary.bit")
+            yield (f"ct.u64.nonzero {v}", "u64.unary.bit")
+    for _ in range(64 if tier == "quick" else 1000):
+        v = rng.getrandbits(rng.choice([64, 64, 32, 16, 8]))
+        yield (f"ct.u64.zero {v}", "u64.unary.random")
+        yield (f"ct.u64.nonzero {v}", "u64.unary.random")
     n = 300 if tier == "quick" else 4000
     for _ in range(n):
         a = rng.getrandbits(64)
@@ -49,7 +60,9 @@ def gen(tier, rng):
             yield (f"ct.arr8.eq {cxhx(arr)} {cxhx(arr)}", k)
             yield (f"ct.arr8.ne {cxhx(arr)} {cxhx(arr)}", k)
             yield (f"ct.arr8.lt {cxhx(arr)} {cxhx(arr)}", k)
+            yield (f"ct.arr8.ge {cxhx(arr)} {cxhx(arr)}", k)
             yield (f"ct.slice8.eq {cxhx(arr)} {cxhx(arr)}", k)
+            yield (f"ct.slice8.ne {cxhx(arr)} {cxhx(arr)}", k)
             yield (f"ct.macresult.eq {cxhx(arr)} {cxhx(arr)}", k)
         for pos in range(n):
             for delta in ((1, 255, 128) if tier == "thorough" else (1, 128)):
@@ -76,6 +89,9 @@ def gen(tier, rng):
                 yield (f"ct.arr8.ge {cxhx(a)} {cxhx(b)}", "arr8.order")
         # unequal lengths
         yield (f"ct.slice8.eq {cxhx(base)} {cxhx(base + b'x')}", "slice.lenmismatch")
+        yield (f"ct.slice8.eq {cxhx(base + b'x')} {cxhx(base)}", "slice.lenmismatch")
+        yield (f"ct.slice8.ne {cxhx(base)} {cxhx(base + b'x')}", "slice.lenmismatch")
+        yield (f"ct.slice8.ne {cxhx(base + bytes(1))} {cxhx(base)}", "slice.lenmismatch")
         yield (f"ct.macresult.eq {cxhx(base)} {cxhx(base + bytes(1))}", "macresult.lenmismatch")
         yield (f"ct.macresult.eq {cxhx(base + bytes(1))} {cxhx(base)}", "macresult.lenmismatch")
     # word arrays
@@ -88,13 +104,16 @@ def gen(tier, rng):
         for op in ("arr64.eq", "arr64.ne", "slice64.eq", "slice64.ne"):
             yield (f"ct.{op} {cxhx(base)} {cxhx(base)}", "arr64")
         yield (f"ct.slice64.eq {cxhx(base)} {cxhx(base + bytes(8))}", "slice.lenmismatch")
+        yield (f"ct.slice64.eq {cxhx(base + rng.rbytes(8))} {cxhx(base)}", "slice.lenmismatch")
+        yield (f"ct.slice64.ne {cxhx(base)} {cxhx(base + bytes(8))}", "slice.lenmismatch")
+        yield (f"ct.slice64.ne {cxhx(base + rng.rbytes(8))} {cxhx(base)}", "slice.lenmismatch")
         for pos in range(8 * n):
             oth = bytearray(base)
             oth[pos] ^= 1 << rng.randrange(8)
             z1 = bytearray(zero)
             z1[pos] = 1 << rng.randrange(8)
-            yield (f"ct.arr64.zero {cxhx(z1)}", "arr64.onepos")
-            yield (f"ct.slice64.nonzero {cxhx(z1)}", "arr64.onepos")
+            for op in ("arr64.zero", "arr64.nonzero", "slice64.zero", "slice64.nonzero"):
+                yield (f"ct.{op} {cxhx(z1)}", "arr64.onepos")
             for op in ("arr64.eq", "arr64.ne", "slice64.eq", "slice64.ne"):
                 yield (f"ct.{op} {cxhx(base)} {cxhx(oth)}", "arr64.onepos")
     # tags
@@ -148,7 +167,8 @@ def gen(tier, rng):
     for a in (0, 1):
         yield (f"ct.choice.not {a}", "choice")
         yield (f"ct.choice.bool {a}", "choice")
-        yield (f"ct.option {a} {rng.getrandbits(64)}", "choice")
+        for v in (0, 1, 2**63, 2**64 - 1, rng.getrandbits(64), rng.getrandbits(64), rng.getrandbits(32), 1 << rng.randrange(64)):
+            yield (f"ct.option {a} {v}", "choice.option")
         for b in (0, 1):
             for op in ("and", "or", "xor"):
                 yield (f"ct.choice.{op} {a} {b}", "choice")
